@@ -193,6 +193,42 @@ def authorityStep (H : SdnsVerif.Model.Nsec3.HashFn) (i : AuthIn) : AuthOut :=
   if !i.sigsGood then authServfail else
   authority (authFamily i) (authExact H i) (authAgg H i) i.nx false
 
+/-! ### Resolver.answer on a positive answer whose RRSIGs may claim wildcard expansion -/
+
+/-- one positive upstream response as `Resolver.answer` sees it (zone secure:
+the resolver holds the signer's DS). The question name is the first answer
+RRset's owner. -/
+structure AnsIn where
+  signer : Name
+  gs : List AnsSig                    -- answer RRsets: owner and the Labels field of its RRSIG
+  reqCD : Bool
+  sigsGood : Bool                     -- every in-zone RRset of answer and authority section verifies
+  nsec : List Nsec                    -- NSEC records of the authority section, AS SENT (foreign records included)
+  nsec3 : List SdnsVerif.Model.Nsec3.Nsec3
+
+/-- the next-closer proof for every expanded RRSIG, over the authority section
+FILTERED to the signer zone (`FilterRRsToZone` runs before the wildcard check:
+out-of-zone authority records were skipped by `VerifyRRSIG`, nothing
+authenticated them). -/
+def ansWildcard (H : SdnsVerif.Model.Nsec3.HashFn) (i : AnsIn) : Except Err Bool :=
+  let s3 := i.nsec3.filter fun r => nameInZone r.owner i.signer
+  if !s3.isEmpty then SdnsVerif.Model.Nsec3.verifyWildcardNSEC3 H s3 i.signer i.gs
+  else verifyWildcardNSEC i.gs (filterToZone i.signer i.nsec)
+
+/-- `Resolver.answer`, validation part: error (`servfail`) or the AD bit. An
+answer record owned outside the signer zone is fatal in `VerifyRRSIG`. -/
+def answerStep (H : SdnsVerif.Model.Nsec3.HashFn) (i : AnsIn) : AuthOut :=
+  if i.reqCD then authPassed else
+  match i.gs with
+  | [] => authServfail
+  | g :: _ =>
+    if !nameInZone g.owner i.signer then authServfail else            -- ValidateSigner(signer, qname)
+    if !(i.gs.all fun x => nameInZone x.owner i.signer) then authServfail else
+    if !i.sigsGood then authServfail else
+    match ansWildcard H i with
+    | .error _ => authServfail
+    | .ok secure => { servfail := false, ad := secure, marked := false, aggressive := false }
+
 /-- what reaches `cache.ResponseWriter.WriteMsg` when the resolver hands the
 response `authority` returned to the writer: provenance and `Aggressive` are
 authority()'s, the remaining guard bits are the request's / the cache's. -/
